@@ -155,7 +155,7 @@ void gen(Rng& r, Plan& p, const GenParams& gp) {
   p.cfg["global_cap"] = (int64_t)r.range(1, 4);
   p.cfg["local_cap"] = (int64_t)r.range(0, 3);
   p.cfg["steal"] = (int64_t)r.below(2);
-  p.cfg["balance_us"] = r.chance(1, 3) ? (int64_t)r.range(100, 1000) : -1;
+  p.cfg["balance_us"] = r.chance(1, 2) ? (int64_t)r.range(20, 400) : -1;
   int stop_mode = (int)r.below(4);  // 0,1: stop after submitters; 2: destructor; 3: stop while submitters run
   p.cfg["stop_mode"] = stop_mode;
   p.cfg["stop_after_us"] = (int64_t)r.range(0, 800);
